@@ -11,7 +11,7 @@ RULE = ("seeded trees of Scope / until blocks (depth <= 3) in which bodies and c
         "in; every block's outcome is compared with a decision table computed from what the "
         "wrappers saw leave the body and the children. Non-trivial = at least one block ended "
         "with an exception; distinct = distinct (per-actor event sequence, fault positions).")
-BUDGET = {"quick": {"cases": 150000, "wall_s": 100, "chunk": 200},
+BUDGET = {"quick": {"cases": 150000, "wall_s": 240, "chunk": 200},
           "thorough": {"cases": 900000, "wall_s": 1500, "chunk": 500}}
 ASSUMPTIONS = ["exception identity is checked through unique serial numbers carried by the "
                "exceptions the programs raise",
